@@ -576,7 +576,7 @@ fn run_history(idx: usize, b: &Value, thorough: bool, rng: &mut StdRng, rt: &tok
 
 // ------------------------------------------------------------------ dialed-peer expectation over TCP
 
-async fn node(kp: Keypair, ws: bool) -> litep2p::Litep2p {
+async fn node(kp: Keypair, ws: bool, v6: bool) -> litep2p::Litep2p {
     let (ping, _events) = litep2p::protocol::libp2p::ping::Config::default();
     let builder = litep2p::config::ConfigBuilder::new().with_keypair(kp).with_libp2p_ping(ping);
     let builder = if ws {
@@ -586,7 +586,7 @@ async fn node(kp: Keypair, ws: bool) -> litep2p::Litep2p {
         })
     } else {
         builder.with_tcp(litep2p::transport::tcp::config::Config {
-            listen_addresses: vec!["/ip4/127.0.0.1/tcp/0".parse().unwrap()],
+            listen_addresses: vec![if v6 { "/ip6/::1/tcp/0" } else { "/ip4/127.0.0.1/tcp/0" }.parse().unwrap()],
             ..Default::default()
         })
     };
@@ -613,16 +613,27 @@ type TcpResult = ((String, String, String), Option<String>);
 /// `dialed` ("B": the listener's key, else another key) in multihash form `form`. The comparison
 /// is done by the real `negotiate_connection`. Returns the dialer's (outcome, peer name, detail)
 /// and, if it reported one, the peer the listener node saw; None if inconclusive.
-async fn tcp_case(dialed: &str, form: &str, ws: bool) -> Option<TcpResult> {
+async fn tcp_case(dialed: &str, form: &str, ws: bool, af: &str) -> Option<TcpResult> {
     use litep2p::Litep2pEvent;
     let (ka, kb, kc) = (Keypair::generate(), Keypair::generate(), Keypair::generate());
     let keys = Keys { a: ka.clone(), b: kb.clone(), r: kc.clone(), w: vec![] };
-    let mut a = node(ka, ws).await;
-    let mut b = node(kb.clone(), ws).await;
+    let v6 = !ws && (af == "ip6" || af == "dns6");
+    let mut a = node(ka, ws, v6).await;
+    let mut b = node(kb.clone(), ws, v6).await;
     let addr = b.listen_addresses().next().cloned()?;
     let expected = peer_id_in_form(if dialed == "B" { &kb } else { &kc }, form);
     // strip a trailing /p2p/.. of the listen address, then add the expectation
-    let base: multiaddr::Multiaddr = addr.iter().filter(|p| !matches!(p, multiaddr::Protocol::P2p(_))).collect();
+    // the dialed address form: the listen address itself, or the same socket named through /dns, /dns4, /dns6
+    let base: multiaddr::Multiaddr = addr
+        .iter()
+        .filter(|p| !matches!(p, multiaddr::Protocol::P2p(_)))
+        .map(|p| match (&p, af) {
+            (multiaddr::Protocol::Ip4(_) | multiaddr::Protocol::Ip6(_), "dns") => multiaddr::Protocol::Dns("localhost".into()),
+            (multiaddr::Protocol::Ip4(_), "dns4") => multiaddr::Protocol::Dns4("localhost".into()),
+            (multiaddr::Protocol::Ip6(_), "dns6") => multiaddr::Protocol::Dns6("localhost".into()),
+            _ => p,
+        })
+        .collect();
     let target = base.with(multiaddr::Protocol::P2p(expected.into()));
     let (ltx, mut lrx) = tokio::sync::mpsc::unbounded_channel::<Vec<u8>>();
     tokio::spawn(async move {
@@ -666,16 +677,22 @@ async fn tcp_case(dialed: &str, form: &str, ws: bool) -> Option<TcpResult> {
 /// The same expectation evaluated by calling the real `negotiate_connection` directly on both ends
 /// of a loopback TCP connection (dialer with `Some(expected)`, listener with `None`): observes the
 /// comparison itself, independent of what the connection manager does with the result.
-async fn negotiate_case(dialed: &str, form: &str, ws: bool) -> Option<TcpResult> {
+async fn negotiate_case(dialed: &str, form: &str, ws: bool, af: &str) -> Option<TcpResult> {
     let (ka, kb, kc) = (Keypair::generate(), Keypair::generate(), Keypair::generate());
     let keys = Keys { a: ka.clone(), b: kb.clone(), r: kc.clone(), w: vec![] };
     let expected = peer_id_in_form(if dialed == "B" { &kb } else { &kc }, form);
-    let listener = tokio::net::TcpListener::bind("127.0.0.1:0").await.ok()?;
+    let listener = tokio::net::TcpListener::bind(if af == "ip6" || af == "dns6" { "[::1]:0" } else { "127.0.0.1:0" }).await.ok()?;
     let addr = listener.local_addr().ok()?;
     let (c, s) = tokio::join!(tokio::net::TcpStream::connect(addr), listener.accept());
     let (c, (s, from)) = (c.ok()?, s.ok()?);
     let t = Duration::from_secs(60);
-    let (rd, rl) = if ws {
+    let (rd, rl) = if !ws && af != "ip4" {
+        // the dialer's negotiate_connection is told the form of the address it dialed
+        tokio::join!(
+            tcp_negotiate_connection_at(c, Some(expected), ka, Role::Dialer, af, "localhost", addr, t),
+            tcp_negotiate_connection(s, None, kb, Role::Listener, from, t)
+        )
+    } else if ws {
         tokio::join!(
             ws_negotiate_connection(c, Some(expected), ka, Role::Dialer, addr, t),
             ws_negotiate_connection(s, None, kb, Role::Listener, from, t)
@@ -750,19 +767,23 @@ fn main() {
         for b in &tcp {
             let dialed = b["sc"]["dialed"].as_str().unwrap().to_string();
             let form = b["sc"]["dialedForm"].as_str().unwrap().to_string();
-            for rep in 0..4 * reps {
-                // routes: two full Litep2p nodes / the bare negotiate_connection on both ends, over TCP and over WebSocket
-                let via = ["tcp", "negotiate", "ws", "wsnegotiate"][(rep % 4) as usize];
+            let af = b["sc"]["addrForm"].as_str().unwrap_or("ip4").to_string();
+            // routes: two full Litep2p nodes / the bare negotiate_connection on both ends, over TCP and over
+            // WebSocket; only the TCP negotiation distinguishes address forms (AddressType::Socket / Dns)
+            let routes: &[&str] = if af == "ip4" { &["tcp", "negotiate", "ws", "wsnegotiate"] } else { &["tcp", "negotiate"] };
+            let nreps = if af == "ip4" { reps } else { reps.div_ceil(2) };
+            for rep in 0..routes.len() as u64 * nreps {
+                let via = routes[(rep % routes.len() as u64) as usize];
                 let mut got = None;
                 for _attempt in 0..3 {
                     // a fresh runtime per case; a panic of the code under test (e.g. a debug assertion in the
                     // connection manager) is an outcome, not a harness crash
                     let rt = tokio::runtime::Builder::new_multi_thread().worker_threads(2).enable_all().build().unwrap();
                     let run = || match via {
-                        "tcp" => rt.block_on(tcp_case(&dialed, &form, false)),
-                        "ws" => rt.block_on(tcp_case(&dialed, &form, true)),
-                        "negotiate" => rt.block_on(negotiate_case(&dialed, &form, false)),
-                        _ => rt.block_on(negotiate_case(&dialed, &form, true)),
+                        "tcp" => rt.block_on(tcp_case(&dialed, &form, false, &af)),
+                        "ws" => rt.block_on(tcp_case(&dialed, &form, true, &af)),
+                        "negotiate" => rt.block_on(negotiate_case(&dialed, &form, false, &af)),
+                        _ => rt.block_on(negotiate_case(&dialed, &form, true, &af)),
                     };
                     got = match catch(run) {
                         Ok(g) => g,
@@ -776,11 +797,12 @@ fn main() {
                 }
                 let Some(((outcome, peer, kind), listener)) = got else { continue };
                 tcp_runs += 1;
-                *outcomes.entry(format!("{outcome}_{via}_{dialed}_{form}")).or_default() += 1;
+                let afs = if af == "ip4" { String::new() } else { format!("_{af}") };
+                *outcomes.entry(format!("{outcome}_{via}_{dialed}_{form}{afs}")).or_default() += 1;
                 lines.push(json!({"e": "hs", "sc": b["sc"], "conc": {"via": via}, "role": "dialer", "outcome": outcome, "peer": peer,
                     "kind": kind, "exp": b["exp"]["dialer"]}).to_string());
                 if let Some(lp) = listener {
-                    *outcomes.entry(format!("ok_{via}_listener")).or_default() += 1;
+                    *outcomes.entry(format!("ok_{via}_listener{afs}")).or_default() += 1;
                     lines.push(json!({"e": "hs", "sc": b["sc"], "conc": {"via": via}, "role": "listener", "outcome": "ok", "peer": lp,
                         "kind": "", "exp": b["exp"]["listener"]}).to_string());
                 }
